@@ -104,6 +104,9 @@ func c06Alphabet(small bool) []model.Instr {
 		{Fn: "const:string", S: "x"},
 		{Fn: "const:nilstring"},
 		{Fn: "const:strptr", S: "p"},
+		// the empty string is a value, not null
+		{Fn: "const:string", S: ""},
+		{Fn: "const:strptr", S: ""},
 	}
 	for _, c := range consts {
 		for _, dst := range []string{"i", "s", "n1"} {
@@ -411,7 +414,7 @@ func c06Run(ctx *core.Ctx) {
 	}
 	// WithRowNums on every frame variant: new name, existing names, illegal names
 	for vi := range vars {
-		for _, name := range []string{"rn", "i", "s", "e", "", "$x"} {
+		for _, name := range append([]string{"rn", "i", "s", "e", "", "$x"}, systematicNames()...) {
 			if ctx.Mine() {
 				exec(applyCase{Variant: vi, RowNums: name})
 			}
